@@ -168,8 +168,8 @@ func hostileMatrixCount() int {
 
 func init() {
 	register(&core.Property{
-		ID: "C05",
-		Rule: "programs: (1) grammar-random, ill-typed trees (every node kind in every operand and statement position, huge and boundary constants, builtin names as variables) in sessions of 1..5 statements, (2) an enumerated matrix of " + fmt.Sprint(len(hostileVals)) + " hostile values (undefined name, function, boundary ints, infinities/NaN, bools, strings, nested arrays, closures) in every pair x all 17 binary operators and in 32 statement/builtin positions (condition, index, slice bound, callee, argument count, iterator, yield/return operand, unary operand ...), (3) token-level mutations of corpus programs that still parse, (4) the typed sessions of C01 with planted faults; each in REPL and script compile mode. non-trivial = at least one statement executed to a value or a runtime error; distinct by session text and mode.",
+		ID:          "C05",
+		Rule:        "programs: (1) grammar-random, ill-typed trees (every node kind in every operand and statement position, huge and boundary constants, builtin names as variables) in sessions of 1..5 statements, (2) an enumerated matrix of " + fmt.Sprint(len(hostileVals)) + " hostile values (undefined name, function, boundary ints, infinities/NaN, bools, strings, nested arrays, closures) in every pair x all 17 binary operators and in 32 statement/builtin positions (condition, index, slice bound, callee, argument count, iterator, yield/return operand, unary operand ...), (3) token-level mutations of corpus programs that still parse, (4) the typed sessions of C01 with planted faults; each in REPL and script compile mode. non-trivial = at least one statement executed to a value or a runtime error; distinct by session text and mode.",
 		Assumptions: []string{"programs that hit the VM step limit without a reference verdict (ill-typed infinite loops) are counted inconclusive/diverged, programs whose values outgrow 10^6 elements are dropped before reaching the VM, a worker stopped by the heap guard is inconclusive/oom", "exit() is not called"},
 		Families: []core.Family{
 			{Name: "matrix", Count: func(string) int { return hostileMatrixCount() * 2 }, Run: func(_ *core.Ctx, idx int) core.Result {
@@ -227,7 +227,7 @@ func init() {
 			}},
 		},
 		Sanitize: []string{"matrix", "random", "typed"},
-		Floors: []core.Floor{{Key: "statements_executed", Quick: 60000, Thor: 5000000}, {Key: "runtime_errors", Quick: 30000, Thor: 2000000}, {Key: "values", Quick: 10000, Thor: 1000000}, {Key: "tag:err:", Quick: 6, Thor: 7}, {Key: "tag:shape:", Quick: 150, Thor: 200}, {Key: "binary_runs", Quick: 200, Thor: 4000}},
+		Floors:   []core.Floor{{Key: "statements_executed", Quick: 60000, Thor: 5000000}, {Key: "runtime_errors", Quick: 30000, Thor: 2000000}, {Key: "values", Quick: 10000, Thor: 1000000}, {Key: "tag:err:", Quick: 6, Thor: 7}, {Key: "tag:shape:", Quick: 150, Thor: 200}, {Key: "binary_runs", Quick: 200, Thor: 4000}},
 	})
 	core.MaxInconclusivePct["C05"] = 15
 }
